@@ -50,22 +50,27 @@ MaterialOk(ty, m) ==
     [] m = "both"   -> FALSE
     [] m = "none"   -> FALSE
 
-EndpointClasses == {"uri", "badUri", "emptyString", "arrUri", "arrUriBad", "arrBadUri", "arrObjBad", "missing", "object"}
+\* "relative": a URI reference without a scheme (/path, //host/x, *); "nonString": a number or boolean; "arrNonString":
+\* an array holding one; "arrNested": a non-URI hidden one array level deeper
+EndpointClasses == {"uri", "badUri", "emptyString", "arrUri", "arrUriBad", "arrBadUri", "arrObjBad", "missing", "object",
+                    "relative", "nonString", "arrNonString", "arrNested"}
 EndpointOk(e) == e \in {"uri", "arrUri", "object"}
 
 Baseline(k) ==
   [kind |-> k, enabled |-> TRUE,
    id |-> "len1", second |-> "none",          \* second entry in the same patch: none / distinct / dup
+   shape |-> "objects",                        \* the entry list: objects / a non-object entry first or last / entries one array deeper / not an array
    ktype |-> "JsonWebKey2020", purposes |-> "auth", material |-> "jwk", extra |-> FALSE, typeMissing |-> FALSE,
    stype |-> "len1", endpoint |-> "uri",
    ids |-> "ok",                               \* remove-*: ok / empty / badChar / len51
    uris |-> "ok",                              \* aka: ok / empty / dup / unparseable
-   inner |-> "ok"]                             \* replace: ok / extraMember / badKey / badSvc / dupKey
+   inner |-> "ok"]                             \* replace: ok / extraMember / badKey / badSvc / dupKey / non-object entries / sections that are no arrays
 
 Domain(k, f) ==
   CASE f = "enabled"  -> BOOLEAN
     [] f = "id"       -> IF k \in {"addKeys", "addSvcs"} THEN IdClasses ELSE {"len1"}
     [] f = "second"   -> IF k \in {"addKeys", "addSvcs"} THEN {"none", "distinct", "dup"} ELSE {"none"}
+    [] f = "shape"    -> IF k \in {"addKeys", "addSvcs"} THEN {"objects", "junkFirst", "junkLast", "nested", "notArray"} ELSE {"objects"}
     [] f = "ktype"    -> IF k = "addKeys" THEN KeyTypes ELSE {"JsonWebKey2020"}
     [] f = "purposes" -> IF k = "addKeys" THEN PurposeClasses ELSE {"auth"}
     [] f = "material" -> IF k = "addKeys" THEN MaterialClasses ELSE {"jwk"}
@@ -75,13 +80,14 @@ Domain(k, f) ==
     [] f = "endpoint" -> IF k = "addSvcs" THEN EndpointClasses ELSE {"uri"}
     [] f = "ids"      -> IF k \in {"removeKeys", "removeSvcs"} THEN {"ok", "empty", "badChar", "len51", "len50"} ELSE {"ok"}
     [] f = "uris"     -> IF k = "aka" THEN {"ok", "empty", "dup", "unparseable"} ELSE {"ok"}
-    [] f = "inner"    -> IF k = "replace" THEN {"ok", "extraMember", "badKey", "badSvc", "dupKey"} ELSE {"ok"}
+    [] f = "inner"    -> IF k = "replace" THEN {"ok", "extraMember", "badKey", "badSvc", "dupKey",
+                                                      "junkKey", "junkSvc", "nestedKeys", "nestedSvcs", "keysNotArray", "svcsNotArray"} ELSE {"ok"}
 
-Fields == {"enabled", "id", "second", "ktype", "purposes", "material", "extra", "typeMissing", "stype", "endpoint", "ids", "uris", "inner"}
+Fields == {"enabled", "id", "second", "shape", "ktype", "purposes", "material", "extra", "typeMissing", "stype", "endpoint", "ids", "uris", "inner"}
 
 Valid(q) ==
   /\ q.enabled
-  /\ q.kind \in {"addKeys", "addSvcs"} => (IdOk(q.id) /\ q.second # "dup" /\ ~q.typeMissing)
+  /\ q.kind \in {"addKeys", "addSvcs"} => (IdOk(q.id) /\ q.second # "dup" /\ ~q.typeMissing /\ q.shape = "objects")
   /\ q.kind = "addKeys" => (PurposeOk(q.ktype, q.purposes) /\ MaterialOk(q.ktype, q.material) /\ ~q.extra)
   /\ q.kind = "addSvcs" => (q.stype \in {"len1", "len30"} /\ EndpointOk(q.endpoint))
   /\ q.kind \in {"removeKeys", "removeSvcs"} => q.ids \in {"ok", "len50"}
@@ -97,7 +103,7 @@ Next == \E f \in Fields : \E v \in Domain(p.kind, f) : Deviate(f, v)
 
 BaselinesValid == devs = {} => Valid(p)
 (* rules that do not depend on another field cannot be repaired by a second deviation (type/purposes/material are coupled) *)
-Uncoupled == {"enabled", "id", "second", "extra", "typeMissing", "stype", "endpoint", "ids", "uris", "inner"}
+Uncoupled == {"enabled", "id", "second", "shape", "extra", "typeMissing", "stype", "endpoint", "ids", "uris", "inner"}
 OneViolationSuffices == (\E f \in devs \cap Uncoupled : ~Valid([Baseline(p.kind) EXCEPT ![f] = p[f]])) => ~Valid(p)
 
 Emit == PrintT("CASE " \o ToJson([p |-> p, valid |-> Valid(p), ndev |-> Cardinality(devs)]))
